@@ -2,7 +2,7 @@
 # Sensitivity of the checks: re-introduce each repaired defect (reverse of its fix: commit) and
 # apply every kept seeded change (/verif/seeded/*/patch.diff) to /repo's working tree, run the
 # quick checks of the listed properties, undo, and print a table. /repo is left clean.
-# usage: ./sensitivity.sh [fixes|seeded|seeded-own|all] [property ...]   (SENS_CLONE=1: work on a private clone)
+# usage: ./sensitivity.sh [fixes|seeded|seeded-own|all] [property ...]   (SENS_CLONE=1: work on a private clone; SENS_ONLY='*-r6-*': only the seeded changes whose id matches)
 set -u
 cd "$(dirname "$0")"
 what="${1:-all}"; shift || true
@@ -41,6 +41,7 @@ if [ "$what" = seeded-own ]; then
     # each seeded change against the check of the property it targets only
     for d in seeded/*/; do
         [ -f "$d/patch.diff" ] || continue
+        case "$(basename $d)" in ${SENS_ONLY:-*}) ;; *) continue;; esac
         own="$(basename $d | cut -d- -f1)"
         if git -C "$REPO" apply "$PWD/$d/patch.diff" 2>/dev/null; then
             props="$own" run_checks "seeded $(basename $d)"
@@ -53,6 +54,7 @@ fi
 if [ "$what" = seeded ] || [ "$what" = all ]; then
     for d in seeded/*/; do
         [ -f "$d/patch.diff" ] || continue
+        case "$(basename $d)" in ${SENS_ONLY:-*}) ;; *) continue;; esac
         if git -C "$REPO" apply "$PWD/$d/patch.diff" 2>/dev/null; then
             run_checks "seeded $(basename $d)"
         else
